@@ -69,6 +69,14 @@ def _lift_obj(arr):
 _FLOATS = (float, _np.float64, "float", "float64")
 
 
+def _is_int_typed(a):
+    if isinstance(a, _np.ndarray):
+        return a.dtype.kind in "iub" and a.size > 0
+    if isinstance(a, (list, tuple)) and len(a) > 0:
+        return all(isinstance(v, (int, _np.integer)) and not isinstance(v, Sym) for v in a)
+    return False
+
+
 class NPProxy:
     def __init__(self, rec):
         self._rec = rec
@@ -84,6 +92,13 @@ class NPProxy:
                 if fn is _np.array and kw.get("copy", True) is not False:
                     return a.copy().view(SymArray)
                 return a if isinstance(a, SymArray) else a.view(SymArray)  # no-copy rule preserved
+            out = _np.array(a, dtype=object)
+            return _lift_obj(out).view(SymArray)
+        if dtype in _FLOATS and _is_int_typed(a) and core.CUR is not None and getattr(core.CUR, "symbolic", False) \
+                and getattr(core.CUR, "typed_inputs", False):
+            # an integer-typed concrete input that the code converts to float: in the symbolic run "float" is
+            # the exact reals, so later symbolic values can be stored into it (harnesses that pass typed
+            # inputs set ctx.typed_inputs)
             out = _np.array(a, dtype=object)
             return _lift_obj(out).view(SymArray)
         if dtype is None and _has_sym(a):
